@@ -225,9 +225,13 @@ def run_validate(chk, scenarios, label, shards=6, featurize=None, on_result=None
         try:
             res = harness.run_scenario(scn)
         except TimeoutError:
-            chk.report({"kind": "hang", "label": label}, f"{label}: scenario did not terminate",
-                       {"scenario": scn})
-            continue
+            # a loaded machine is not a hang: once more, alone, with ten times the allowance
+            try:
+                res = harness.run_scenario(dict(scn, timeout=10 * scn.get("timeout", 20)))
+            except TimeoutError:
+                chk.report({"kind": "hang", "label": label}, f"{label}: scenario did not terminate",
+                           {"scenario": scn})
+                continue
         if on_result is not None:
             on_result(scn, res)
         batch.append(res)
@@ -272,7 +276,7 @@ def run_validate(chk, scenarios, label, shards=6, featurize=None, on_result=None
     return verdicts
 
 
-def replay_file(chk, path):
+def replay_file(chk, path, featurize=None):
     """--replay: re-run the scenario of a replay file on the current tree and validate it."""
     with open(path) as f:
         rep = json.load(f)
@@ -281,7 +285,7 @@ def replay_file(chk, path):
         print("replay file has no executable scenario (specification-level counterexample):")
         print(rep["replay"].get("tlc_log_tail", "")[-3000:])
         return 1
-    vs = run_validate(chk, [scn], "replay", shards=1)
+    vs = run_validate(chk, [scn], "replay", shards=1, featurize=featurize)
     return 0 if vs and vs[0]["ok"] and not chk.violations else 1
 
 
